@@ -232,6 +232,7 @@ Definition svc_restart (s : state) : state :=
 Inductive op :=
 | ResUp (o : Z) | ResDown (o : Z)                 (* <svc>/resources/<o> appears / disappears *)
 | AppUp (o : Z) | AppDown (o : Z)                 (* <root>/apps/<o> appears / disappears *)
+| VethDown (o : Z)                                (* the veth pair of <o> disappears (host reboot, manual deletion) *)
 | VipAlloc (o : Z) (picked : option Z)
 | VipFree (o a : Z)
 | VipGc
@@ -253,6 +254,7 @@ Definition step (c : cidr) (o : op) (s : state) : state * res :=
   | ResDown x => (set_res s (del_z x (s_res s)), ROk)
   | AppUp x => (set_apps s (add_z x (s_apps s)), ROk)
   | AppDown x => (set_apps s (del_z x (s_apps s)), ROk)
+  | VethDown x => (set_veth s (del_z x (s_veth s)), ROk)
   | VipAlloc x p => let (r, t) := vip_alloc c x p (s_vips s) in (set_vips s t, r)
   | VipFree x a => (set_vips s (snd (release Z.eqb a x (s_vips s))), ROk)
   | VipGc => (set_vips s (gc (s_res s) (s_vips s)), ROk)
@@ -316,7 +318,7 @@ Definition dump_devs (m : devs) : list Z :=
 (** after each operation: its result and the directory (directories) it works on *)
 Definition dump_after (o : op) (s : state) : list Z :=
   match o with
-  | ResUp _ | ResDown _ | AppUp _ | AppDown _ => []
+  | ResUp _ | ResDown _ | AppUp _ | AppDown _ | VethDown _ => []
   | VipAlloc _ _ | VipFree _ _ | VipGc => dump_ztable (s_vips s)
   | RuleCreate _ _ | RuleUnlink _ _ | RuleGc => dump_ztable (s_rules s)
   | SpecCreate _ _ | SpecUnlink _ _ | SpecUnlinkAll _ _ _ _ | SpecGc => dump_specs (s_specs s)
